@@ -24,7 +24,7 @@ var ttmlAttrNames = []string{"backgroundColor", "color", "direction", "display",
 
 var ttmlAttrValues = map[string][]string{
 	"backgroundColor": {"black", "#00000080", "transparent"}, "color": {"white", "#ff0000", "rgba(1,2,3,4)"}, "direction": {"ltr", "rtl"}, "display": {"auto", "none"},
-	"displayAlign": {"before", "center", "after"}, "extent": {"100% 10%", "80% 20%", "560px 62px"}, "fontFamily": {"sansSerif", "proportionalSansSerif", "Arial, Helvetica"},
+	"displayAlign": {"before", "center", "after"}, "extent": {"100% 10%", "80% 20%", "560px 62px"}, "fontFamily": {"sansSerif", "proportionalSansSerif", "Arial, Helvetica", `"Courier New", monospace`, `O'Reilly Sans`, "A&B <Mono>"},
 	"fontSize": {"100%", "18px", "1c 2c"}, "fontStyle": {"normal", "italic"}, "fontWeight": {"normal", "bold"}, "lineHeight": {"normal", "125%"}, "opacity": {"1.0", "0.5"},
 	"origin": {"0% 90%", "10% 80%", "10%  80%", " 5% 85% "}, "overflow": {"visible", "hidden"}, "padding": {"0px", "1c 2c"}, "showBackground": {"always", "whenActive"},
 	"textAlign": {"center", "left", "end", "justify", "start", "right"}, "textDecoration": {"none", "underline"}, "textOutline": {"black 1px", "none"}, "unicodeBidi": {"normal", "embed"},
@@ -294,7 +294,7 @@ func ttmlGenModel(r *fw.Rand, forWriter bool) ttmlModel {
 		}
 		c.Attrs = ttmlGenAttrs(r, 3)
 		for l := 0; l < r.Range(1, 3); l++ {
-			txt := genText(r, textOpts{amp: true, lt: true, gt: true, nbsp: true, braces: true, comma: true, ampEntity: true, maxWords: 5})
+			txt := genText(r, textOpts{amp: true, lt: true, gt: true, nbsp: true, braces: true, comma: true, ampEntity: true, bsN: true, maxWords: 5})
 			if forWriter && r.P(1, 5) {
 				txt += fw.Pick(r, []string{"]]>", "\u0085x", " y", "'\"", "\ttab", "<![CDATA[z]]>", "&#xA;"})
 			}
